@@ -98,6 +98,28 @@ def run_points(case):
                     if str(off) != want:
                         bad.append({'what': 'colour disabled: output != formatted text', 'spec': spec, 'point': pt, 'text': text,
                                     'expected': want, 'observed': str(off)})
+                # a style that has ALREADY been rendered and measured, then derived from ("all modifier methods return a copy"): the derived
+                # style must render like one constructed with those attributes from scratch, and the original must render as before
+                for spec in case['specs'][1:4]:
+                    base = Style(text, color=color, **kw)
+                    first = (str(base), len(base), f'{base}')
+                    try:
+                        derived = [('fmt(spec)', base.fmt(spec), Style(text, fmt=spec, color=color, **kw)),
+                                   ('bold().fmt(spec)', base.bold().fmt(spec), Style(text, fmt=spec, color=color, **dict(kw, bold=True))),
+                                   ('fmt(spec) called', base.fmt(spec)(text), Style(text, fmt=spec, color=color, **kw))]
+                    except ValueError:
+                        continue
+                    for how, dv, fresh in derived:
+                        try:
+                            a, b = (str(dv), len(dv), descape(str(dv))), (str(fresh), len(fresh), descape(str(fresh)))
+                        except ValueError:
+                            continue
+                        if a != b:
+                            bad.append({'what': f'a style derived with {how} from a style that was rendered before differs from a fresh style with the same attributes',
+                                        'spec': spec, 'point': pt, 'text': text, 'expected': list(b), 'observed': list(a)})
+                    if (str(base), len(base), f'{base}') != first:
+                        bad.append({'what': 'deriving from a style changed the original', 'spec': spec, 'point': pt, 'text': text,
+                                    'expected': list(first), 'observed': [str(base), len(base), f'{base}']})
                 # repr round trip: same attributes; same text when it has no braces, colons, backslashes, quotes, controls
                 for spec in (None, '>8'):
                     s3 = Style(text, fmt=spec, color=color, **kw)
